@@ -126,6 +126,7 @@ struct cmb_process {
     struct cmi_slist_head awaits;         /**< What this process is waiting for, if anything */
     struct cmi_slist_head waiters;          /**< Any other processes waiting for this process to finish */
     struct cmi_slist_head resources;        /**< Any resources held by this process */
+    bool yielding;                          /**< Suspended in `cmb_process_yield()`, what `cmb_process_resume()` is for */
 };
 
 /**
@@ -229,10 +230,12 @@ static inline struct cmb_process *cmb_process_current(void)
  */
 static inline int64_t cmb_process_yield(void)
 {
-    const struct cmb_process *pp = (struct cmb_process *)cmi_coroutine_current();
+    struct cmb_process *pp = (struct cmb_process *)cmi_coroutine_current();
     cmb_assert_release(pp != (struct cmb_process *)cmi_coroutine_main());
 
+    pp->yielding = true;
     const int64_t sig = (int64_t)cmi_coroutine_yield(NULL);
+    pp->yielding = false;
 
     return sig;
 }
@@ -241,6 +244,9 @@ static inline int64_t cmb_process_yield(void)
  * @brief  Schedule a wakeup event at the current time for a yielded process. The
  *         processes are asymmetric coroutines and only the dispatcher can call
  *         `cmi_coroutine_resume()`. Hence, an event to make the dispatcher do that.
+ *         If something else has ended the yield by the time the event runs,
+ *         the signal is dropped; it does not reach whatever the process is
+ *         waiting for then.
  *
  * @memberof cmb_process
  * @param pp Pointer to the target process.
